@@ -13,7 +13,7 @@ from pyvc import values as V
 from pyvc.contracts import Call, FunctionContract
 from pyvc.interp import PyRaise, exc_class
 from pyvc.libspec import A
-from pyvc.values import F64, INT, STR, SArr, SExc, SFloat, SInt, SObj, SSeq, SStr, VarStore, forall_range
+from pyvc.values import ANY_EXCEPTION, F64, INT, STR, SArr, SExc, SFloat, SInt, SObj, SSeq, SStr, VarStore, forall_range
 
 STORE = z3.ArraySort(STR, z3.ArraySort(INT, F64))
 
@@ -149,14 +149,14 @@ class ResolvePeriodSlice(FunctionContract):
 
 class LabelItem(FunctionContract):
     """obj[name, label] / obj[name, a:b:s] (get and set) address exactly the labelled positions of the named series."""
-    props = ('C10',)
+    props = ('C10', 'C09')
 
     def __init__(self, method):
         self.method = method
         self.qualname = f'fsic.core.containers.VectorContainer.{method}'
 
     def scenarios(self):
-        return ['label'] + [f'slice/{a}/{b}/{s}' for a in ('open', 'label') for b in ('open', 'label') for s in ('none', '2')] + ['unknown-name', 'name-only']
+        return ['label'] + [f'slice/{a}/{b}/{s}' for a in ('open', 'label') for b in ('open', 'label') for s in ('none', '2')] + ['unknown-name', 'unknown-name-only', 'name-only']
 
     def setup(self, interp, scenario):
         ctx = interp.ctx
@@ -169,6 +169,8 @@ class LabelItem(FunctionContract):
             key = ('X', SInt(e['label']))
         elif scenario == 'unknown-name':
             key = ('nope', SInt(ctx.fresh('label', INT)))
+        elif scenario == 'unknown-name-only':
+            key = 'nope'
         elif scenario == 'name-only':
             key = 'X'
         else:
@@ -193,15 +195,15 @@ class LabelItem(FunctionContract):
             cls = exc_class(out.exc)
             ctx.prove(z3.BoolVal(cls is KeyError), 'only_KeyError_for_absent_label_or_unknown_name', 'raises')
             ctx.prove(e['store'].data == e['data0'], 'a_rejected_access_touches_no_series', 'frame')
-            if scenario not in ('unknown-name',):
+            if scenario not in ('unknown-name', 'unknown-name-only'):
                 ctx.prove(z3.BoolVal(getattr(out.exc, 'origin', '') == 'locate'), 'KeyError_only_from_the_span_look_up', 'raises')
             return
-        ctx.prove(z3.BoolVal(scenario != 'unknown-name' or self.method == '__setitem__'), 'unknown_name_raises_KeyError', 'raises') \
-            if scenario == 'unknown-name' and self.method == '__getitem__' else None
+        if scenario in ('unknown-name', 'unknown-name-only'):
+            # reading or assigning under a name that is not a variable raises (C09: an assignment to an unknown name raises and changes nothing)
+            ctx.prove(False, 'unknown_name_raises_KeyError', 'raises')
+            return
         ctx.prove(others_same, 'other_series_untouched', 'frame')
         if scenario == 'name-only':
-            return
-        if scenario == 'unknown-name':
             return
         if scenario == 'label':
             r = [x for k, x in e['located'] if isinstance(x, tuple)]
@@ -258,8 +260,11 @@ class LocateDispatch(FunctionContract):
             class M:
                 def vc_call(self_, interp_, args, kwargs, node):
                     e['calls'].append((tag, list(args)))
-                    if ctx.choose(2, f'{tag}-raises') == 1:
-                        exc = SExc(ValueError if tag == 'index' else KeyError, origin=tag)
+                    k_ = ctx.choose(3, f'{tag}-raises')
+                    if k_:
+                        # the documented failure of this look-up, or any other exception (TypeError, pandas' InvalidIndexError, ... for
+                        # labels the span type cannot even compare): all of them mean "not a label of this span"
+                        exc = SExc((ValueError if tag == 'index' else KeyError) if k_ == 1 else ANY_EXCEPTION, origin=tag)
                         e['exc'] = exc
                         raise PyRaise(exc)
                     r = SInt(ctx.fresh(f'{tag}.result', INT))
